@@ -147,3 +147,8 @@ package xstar
 //@   before call:delete#1 assert arg0 == p.s.pipes && held(s.Mutex)
 //@   before call:close#1 assert arg0 == p.closeq
 //@   ensures called("delete")
+
+// ---- round 10: every pipe is offered the message (a non-blocking send on its queue is reached) ----
+//@ func (*socket).SendMsg
+//@   loop 1 ensures called_since("loop1:head", "Clone") && sel("select#1") != -2
+//@   before select#1 assert selsends(p.sendq) && held(s.Mutex)
